@@ -156,6 +156,11 @@ async fn start_server(tls: Option<native_tls::Identity>, dict: Arc<Dictionary>, 
             }
         }
         let _ = server.listen(h, dict).await;
+        // `listen` has returned (an identity that cannot be used, for instance): the server object - and with it the port -
+        // is kept for a while, so that the port number cannot pass to some other scenario's server while this scenario's
+        // clients are still on their way to it
+        tokio::time::sleep(Duration::from_secs(20)).await;
+        drop(server);
     });
     tokio::time::sleep(Duration::from_millis(20)).await;
     addr
